@@ -362,7 +362,8 @@ func (r *renewRun) Main(s *sim.Sim) {
 		s.Fail("C16", "hang", "senders-or-renew-blocked", "requests / Renew calls did not return within 60 s around a renewal\n%s", clientStacks())
 		return
 	}
-	if c2s.multi > 0 && (len(opns) > 1) {
+	// (race mode delivers without passing the wire observers: judge by the calls' own probes there)
+	if c2s.multi > 0 && (len(opns) > 1) || s.Free() && s.ProbeCount("request-ok") > 0 && (r.Mode == "c16" || s.ProbeCount("explicit-renew-ok") > 0) {
 		s.Nontrivial()
 	}
 	s.Info["wire"] = fmt.Sprintf("chunks=%d multi=%d wraps=%d opn=%d", c2s.chunks, c2s.multi, c2s.wraps, len(opns))
@@ -596,7 +597,7 @@ func (r *renewRun) mainRealServer(s *sim.Sim) {
 		s.Fail("C16", "hang", "senders-or-renew-blocked", "requests / Renew calls did not return within 60 s around a renewal (real server channel)\n%s", clientStacks())
 		return
 	}
-	if (s2c.multi > 0 || c2s.multi > 0) && c2s.opnSeen > 1 {
+	if (s2c.multi > 0 || c2s.multi > 0) && c2s.opnSeen > 1 || s.Free() && s.ProbeCount("request-ok") > 0 && s.ProbeCount("explicit-renew-ok") > 0 {
 		s.Nontrivial()
 	}
 	if s2c.multi > 0 {
